@@ -32,13 +32,15 @@ def _execute(ctx, entropy_seed):
     # the RESEED_RANDOM fault
     ctx.random_seed = int.from_bytes(hashlib.sha256(("random:%s" % entropy_seed).encode()).digest()[:6], "big")
     _random.seed(ctx.random_seed)
-    with Entropy(entropy_seed) as ent:
+    with Entropy(entropy_seed) as ent, core.SimClock() as clk:
         drv = DRIVERS[ctx.prop][0](ctx)
         try:
             drv.run()
         except Violation as v:
             viol = v
     ctx.entropy_calls = ent.calls
+    ctx.clock_reads = clk.reads
+    ctx.pid_reads = clk.pid_reads
     d = diff_state(before, module_state())
     ctx.module_state_left = d[:5]
     if d:
